@@ -11,7 +11,8 @@ RULE = ('random linear/conv models, batch sizes, decay values and schedules, acc
         'update intervals, eval passes and non-update steps interleaved, world sizes 1–8: every saved factor is compared '
         'with the model\'s symbolic value term evaluated on the second moments the harness\'s own hooks computed (1e-9) '
         'and with the reference recurrence; symmetric/PSD checked; separate streams for the stored dtype '
-        '(float64/float32/bfloat16/float16/None) and for the loss-scale division; non-trivial = ≥2 factor updates')
+        '(float64/float32/bfloat16/float16/None) and for the loss-scale division; non-trivial = ≥2 factor updates'
+        '; loss scales that change between the micro-batches of one accumulation window; ragged iterations with accumulation and update intervals > 1; half-precision factors with thousands of rows')
 TRUSTED = [
     'Lean 4.33 kernel; axioms audited ⊆ {propext, Classical.choice, Quot.sound}',
     'hand-written models KV.Spec/KV.Precond (recurrence, accumulation, cross-rank mean) and KV.Alg (cov, ema) tied to '
